@@ -104,6 +104,60 @@ PROPS.update({
     },
 })
 
+PROPS.update({
+    "C13": {
+        "tests": "^TestC13_",
+        "quick": {"scale": 1.0, "timeout": 900},
+        "thorough": {"scale": 12.0, "shards": 16, "timeout": 1800},
+        "rule": "rapid: a valid patch of each of the seven dedicated actions (boundary-valid ids of 1/50 characters, service types "
+                "of 1/30) must validate; then exactly one labelled violation is applied (id empty/51/bad character/missing/duplicate; "
+                "key type missing/unknown; both/no key material; JWK missing or empty kty/crv/x; incomplete RSA; JsonWebKey2020 with "
+                "base58; unknown key member; purposes empty/unknown/six/not permitted for the type; service type missing/empty/31; "
+                "endpoint missing/null/invalid URI/invalid URI at position k of a list; empty or invalid id list; empty, unparsable or "
+                "duplicate also-known-as URIs; extra member in a replace document; empty key/service list) and must be refused. "
+                "TestC13_Matrix enumerates all 168 cells of key type x (purpose|general) x material x {add-public-keys, replace} "
+                "against the documented table; TestC13_OriginalDocuments checks id / @context (list and string form) refusal. "
+                "Non-trivial: every violated case and every matrix cell; distinct by (action, label, patch).",
+        "technique": "property-based testing (rapid) with by-construction verdicts (valid + exactly one labelled violation) and exhaustive enumeration of the key-type x purpose table",
+        "level_text": "Randomised exploration with a complete label catalogue and an exhaustive finite table; verdicts are known by construction.",
+        "level_note": "Trusts the harness' transcription of the documented constraints (ids, lengths, key type x purpose table).",
+        "assumptions": ["wrong JSON types inside lists (number as id/purpose/URI) are skipped by the validators by design and belong to C19", "a context is a non-empty @context member (string or list)"],
+    },
+    "C14": {
+        "tests": "^TestC14_",
+        "quick": {"scale": 1.0, "timeout": 900},
+        "thorough": {"scale": 12.0, "shards": 16, "timeout": 1800},
+        "rule": "rapid: documents without id (non-empty key/service/also-known-as lists plus 0-4 further members named "
+                "[A-Za-z0-9_@-]+ with arbitrary JSON values) in plain or varied spelling -> PatchesFromDocument -> ApplyPatches({}) must "
+                "reproduce the document (also after each patch went through Bytes/FromBytes); every patch from the eight constructors "
+                "on valid input must validate, survive Bytes/FromBytes unchanged and expose action and value under the configured "
+                "key; a document with id and bytes with missing/unsupported/non-string action, missing value member or the value "
+                "under another key must be refused. Non-trivial document: all three dedicated members and >= 2 other members, one nested; "
+                "every constructor case is non-trivial; distinct by content.",
+        "technique": "property-based testing (rapid): round-trip oracles and by-construction refusals",
+        "level_text": "Randomised exploration of round trips.",
+        "level_note": "Trusts the harness document normalisation (absent / null / empty list are equal).",
+        "assumptions": ["member names contain no JSON-pointer or quoting metacharacters and are not prefixed by publicKey/service (stated in the property's domain)"],
+    },
+    "C12": {
+        "tests": "^TestC12_",
+        "quick": {"scale": 1.0, "timeout": 900},
+        "thorough": {"scale": 10.0, "shards": 16, "timeout": 1800},
+        "rule": "rapid histories: (a) 1-4 chained ApplyPatches calls, each with 1-5 validated patches and, in 1/3 of the calls, an "
+                "ietf-json-patch that validates but does not apply at a drawn position k; (b) operation histories of the C01 state "
+                "machine (valid, degraded and refused operations of every failure class). Before every call the inputs (document / "
+                "previous resolution model incl. nested document, every patch value, the anchored operation) are snapshotted by an "
+                "independent reflective deep copy and as JSON; after the call and again at the end of the history all snapshots, "
+                "including every earlier result, must be unchanged; error => nil result, and a list the reference says must fail may "
+                "not succeed. Non-trivial: non-empty nested document and (failure at k >= 2 or an existing id replaced / a refused "
+                "or degraded operation after an accepted one); distinct by history.",
+        "technique": "property-based testing (rapid, stateful histories) with a deep-snapshot invariant",
+        "level_text": "Randomised exploration of call histories with snapshots of all inputs and all earlier results.",
+        "level_note": "Trusts reflect.DeepEqual and encoding/json as comparison devices; the harness never writes into values it handed to or got from the library.",
+        "assumptions": ["aliasing between a result and the inputs it was built from is not itself a violation; only an observable change of an input or of an earlier result is"],
+    },
+})
+
 NOT_APPLICABLE = {p: "check not built yet (work in progress; this entry is temporary)" for p in
                   ["C%02d" % i for i in range(1, 21)]}
 HOOK_COMMITS = []
